@@ -74,14 +74,42 @@ func consultsOf(c *Config, f *ssa.Function, ids map[string]constant.Value) []con
 	failFn := c.method("failfs", "FailFS", "fail")
 	eachCall(f, func(ci ssa.CallInstruction) {
 		call, ok := ci.(*ssa.Call)
-		if !ok || failFn == nil || call.Call.StaticCallee() != failFn {
+		if !ok || failFn == nil {
 			return
 		}
-		args := callArgs(call)
-		if len(args) < 1 {
+		var idArg ssa.Value
+		switch g := call.Call.StaticCallee(); {
+		case g == failFn:
+			if args := callArgs(call); len(args) >= 1 {
+				idArg = args[0]
+			}
+		case g != nil && len(g.Blocks) > 0 && g.Pkg == f.Pkg && !isEntryPoint(g) && g.Signature.Results().Len() == 1 && isErrorType(g.Signature.Results().At(0).Type()):
+			// an unexported helper that builds the parameters and returns the result of the consult made with the
+			// function id it was given: the consult happens at this call, with the caller's id
+			rets := returnsOf(g)
+			if len(rets) != 1 {
+				return
+			}
+			inner, isCall := strip(resolve1(rets[0].Results[0])).(*ssa.Call)
+			if !isCall || inner.Call.StaticCallee() != failFn {
+				return
+			}
+			ia := callArgs(inner)
+			if len(ia) < 1 {
+				return
+			}
+			if p, isP := strip(ia[0]).(*ssa.Parameter); isP {
+				for i, gp := range g.Params {
+					if gp == p && i < len(call.Call.Args) {
+						idArg = call.Call.Args[i]
+					}
+				}
+			}
+		}
+		if idArg == nil {
 			return
 		}
-		k, _ := strip(args[0]).(*ssa.Const)
+		k, _ := strip(idArg).(*ssa.Const)
 		co := consult{call: call}
 		if k != nil && k.Value != nil {
 			co.id = k.Value
